@@ -7,7 +7,7 @@
    All theorems hold for every configuration, every initial state with a non-negative provision and every history. *)
 From Coq Require Import ZArith List Bool.
 Import ListNotations.
-From Osmo Require Import Base.DecModel C18.Model C18.Proofs C18.ProofsRun C18.Witness.
+From Osmo Require Import Base.DecModel C18.Model C18.Proofs C18.ProofsRun C18.Witness C18.Liveness.
 Open Scope Z_scope.
 
 (* ------------------------------------------------------------------------------------------------------------ *)
@@ -107,6 +107,33 @@ Theorem C18_cumulative_supply : forall cfg calls s,
   rr <= k * (Z.of_nat (length (p_recv cfg)) - 1) + (if p_recv cfg then k else 0) /\ 0 <= k.
 Proof. exact cumulative_supply. Qed.
 Print Assumptions C18_cumulative_supply.
+
+(* "exactly the integer part ... is put into circulation" also needs the call to succeed: with a valid configuration,
+   non-negative mint / pool-incentives balances, creditable receivers, a vesting balance covering the developer share,
+   and pool-incentives allocations that fit into what the module then holds, AfterEpochEnd cannot fail *)
+Theorem C18_no_spurious_failure : forall cfg s e,
+  valid_cfg cfg -> 0 <= s_prov s -> p_start cfg <= e ->
+  let M := minted_at cfg s e in
+  let b := s_bank s in
+  0 <= bal b AMint -> 0 <= bal b APool ->
+  no_blocked (p_recv cfg) ->
+  dev_of cfg M <= bal b AVest ->
+  hook_fits cfg (bal b APool + share M (p_pool cfg)) ->
+  exists s', after_epoch_end cfg s true e = Ok s'.
+Proof. exact no_spurious_failure. Qed.
+Print Assumptions C18_no_spurious_failure.
+
+(* the hook hypothesis holds when there are no records or a single record ... *)
+Theorem C18_hook_fits_simple : forall cfg asset,
+  (d_total cfg = 0 -> hook_fits cfg asset) /\
+  (forall g w, d_records cfg = [(g, w)] -> d_total cfg = w -> 0 < w -> 0 <= asset -> hook_fits cfg asset).
+Proof. intros cfg asset; split; [apply no_records_fits|intros g w; apply single_record_fits]. Qed.
+Print Assumptions C18_hook_fits_simple.
+
+(* ... and cannot be dropped: finding F9 (three records 535/2/3, provisions 10^19: the hook panics, nothing is minted) *)
+Theorem C18_hook_hypothesis_needed : ~ succeeds_given_vesting.
+Proof. exact succeeds_given_vesting_refuted. Qed.
+Print Assumptions C18_hook_hypothesis_needed.
 
 (* ------------------------------------------------------------------------------------------------------------ *)
 (* The property as stated: every call of every history behaves as above AND the reported supply grows by exactly the
